@@ -162,8 +162,8 @@ def check(sim, case, st):
             st.probes['fallback-copy'] += 1
         else:
             res.append(('C07/cross-device-without-fallback/%s' % sigctx, 'a rename returned EXDEV / a copy ran although the home fallback is not enabled twice %s' % ctx))
-    if sim.log and spec.get('stdin') and False:
-        pass
+    if r.stdin_read:
+        res.append(('C07/prompted/%s' % sigctx, 'trash-put read from stdin (prompted) although neither -i nor anything else asks for it %s' % ctx))
     if any('.Trash-' in (k or '') and v[0] == 'l' for k, v in snap0.items()):
         st.probes['alt-symlink-other-volume'] += 1
     trivial = (chosen_kind == 'home' and not td and not optset and note.get('place') == 'home' and env.get('XDG_DATA_HOME') is None)
